@@ -296,3 +296,26 @@ long narrow_guard_local_bad(const uint8_t* in, size_t in_size) {
     if (in_size < entry) return -1;
     return (long)entry;
 }
+
+/* ---- R26 hidden state: a call's output depends on its arguments only */
+size_t hidden_bad(const uint8_t* in, size_t n, uint8_t* out) {
+    static uint16_t table[256];                 /* candidates left by the previous call steer this one */
+    size_t o = 0;
+    for (size_t i = 0; i + 1 < n; i++) {
+        uint8_t h = (uint8_t)(in[i] * 31u + in[i + 1]);
+        if (table[h] < i && in[table[h]] == in[i]) out[o++] = 1; else out[o++] = in[i];
+        table[h] = (uint16_t)i;
+    }
+    return o;
+}
+size_t hidden_good(const uint8_t* in, size_t n, uint8_t* out) {
+    static uint16_t table[256];
+    size_t o = 0;
+    memset(table, 0, sizeof(table));
+    for (size_t i = 0; i + 1 < n; i++) {
+        uint8_t h = (uint8_t)(in[i] * 31u + in[i + 1]);
+        if (table[h] < i && in[table[h]] == in[i]) out[o++] = 1; else out[o++] = in[i];
+        table[h] = (uint16_t)i;
+    }
+    return o;
+}
